@@ -124,7 +124,12 @@ def run(ctx):
                 "query per namespace (+ a foreign one), gateway scopes, and for one sidecar proxy the CDS output (incl. subset clusters) and the EDS answers for "
                 "every hostname of the mesh, for one router proxy the CDS output and VirtualServicesForGateway for named gateways, the merged (delegate) VirtualServices; "
                 "serviceEntryVisibility policies over namespace labels; ExternalName (alias) services with chains and loops, mirror/tls destinations, TCP/TLS ports, VIPs; "
-                "lazy / concurrent scope conversion toggled. "
+                "lazy / concurrent scope conversion toggled; traffic policies (connection pools, load balancers, port-level settings, backend-policy rules) with a "
+                "distinct connection limit per place; incremental pushes (update / delete of one object, next PushContext derived from the current one); "
+                "delegating routes with a root sourceNamespace match; bare-hostname DestinationRule lookups; Router CDS with the gateway cluster filter; "
+                "EDS for subset clusters; sidecar LDS listener names and RDS virtual host names; TCP/TLS/HTTP_PROXY/unix-socket egress listeners, short names, waypoints. "
+                "vval: 3-6 exportTo lists per case over keywords, namespaces and malformed labels for ServiceEntry / VirtualService / DestinationRule (with selector). "
+                "sev: 1-3 ServiceEntries with 1-3 hosts over labelled namespaces and serviceEntryVisibility policies (matchLabels, matchExpressions). "
                 "distinct = hash of (ops, implementation outputs); non-trivial = at least one op")
     ctx.assumptions = [
         "hostnames and namespaces are ASCII (Go compares bytes, the model compares characters)",
@@ -133,9 +138,12 @@ def run(ctx):
         "at most one Kubernetes service per hostname in generated meshes (the oracle's Kubernetes tie-break clause names a single expected namespace); pickBestVisibleNamespace itself is order independent for all inputs (pickBest_order_independent, /repo d30d8f4)",
         "ExternalName services have pairwise distinct hostnames (two alias services on one hostname: 'behavior is undefined' in resolveServiceAliases)",
         "the proxy namespace is not one of the exportTo keywords '.', '~' (ValidNs) and no VirtualService lives in a namespace named '*'",
-        "completeness is stated for export sets in which '~' does not stand next to a namespace or '.' (ExportWF; validation enforces it for ServiceEntry; witness exported_mixed_none_witness otherwise)",
+        "completeness is stated for export sets in which '~' does not stand next to a namespace or '.' (ExportWF); for a ServiceEntry that passed admission validation this is proved "
+        "(exported_complete_validated, validator tied by the vval stream); Kubernetes Service annotations are not validated (witness exported_mixed_none_witness)",
+        "every generated connection limit is written in exactly one place of one DestinationRule (the oracle identifies the owner of a policy value by it)",
     ]
     ctx.trusted.append("pilot/pkg/model/zz_verif_c07.go (verif-tagged accessors: servicesExportedToNamespace, serviceExportTo, SidecarScope.destinationRules, ConsolidatedDestRule.from)")
+    ctx.trusted.append("harness ServiceEntry environment of the sev stream (memory config store, fake Kubernetes client, multicluster controller) and the carrier objects of the vval stream")
     ctx.trusted.append("harness service registry / config store construction (model.NewEnvironment + FakeStore + VirtualServiceController + PushContext.InitContext), "
                        "closed-form index model (public / exportedToNamespace / HostnameAndNamespace as filters of the creation-ordered list)")
     proved = ctx.lean_prove(THEOREMS)
@@ -191,28 +199,34 @@ MANIFEST = {
     "level_text": ("Lean 4 proof over an exact executable model of host.Name.Matches/SubsetOf, PushContext.serviceExportTo / IsServiceVisible / "
                    "servicesExportedToNamespace and the service indexes, sidecar.go (egress host parsing, hostClassification, selectServices in both "
                    "UnifiedSidecarScoping branches, alias/port trimming, servicesForExactHosts, collectImportedServices with pickFirst/pickBestVisibleNamespace, "
-                   "appendSidecarServices, default and gateway scopes, Sidecar selection), SelectVirtualServices and the DestinationRule index / merge / lookup. "
+                   "appendSidecarServices with servicesByHostname, default and gateway scopes, Sidecar selection), SelectVirtualServices, VirtualServicesForGateway, "
+                   "delegate merging incl. sourceNamespace match merging, the DestinationRule index / merge (with traffic policies, subsets, backend-policy rules) / lookup, "
+                   "serviceEntryVisibility policies, exportTo admission validation, GatewayServices, and the names sidecar LDS / RDS derive from a scope. "
                    "Theorems (all inputs, no size bound): hostname algebra incl. subsetOf_iff_denote_subset and matches_iff_denote_intersect; visible_iff "
-                   "(IsServiceVisible = documented exportTo semantics for every default/cap), exported_sound/complete; scope_sound (every service of "
-                   "SidecarScope.services is a mesh service Visible to the proxy namespace and Imported by the scope) ; scope_complete / default_scope_complete "
+                   "(IsServiceVisible = documented exportTo semantics for every default/cap), exported_sound/complete, exported_complete_validated; scope_sound (every service of "
+                   "SidecarScope.services is a mesh service Visible to the proxy namespace and Imported by the scope); scope_complete / default_scope_complete "
                    "(visible + matched by a port-unrestricted egress host => delivered or displaced by a visible same-hostname winner); exact_fastpath_parity; "
-                   "vs_export_sound, dr_export_sound (a rule not exported to the proxy namespace is never selected); gateway_scope_sound; "
-                   "pickBest_order_independent; scope_alias_sound (delivered alias hostnames stand for exported ExternalName services), scope_complete_unique_ports, "
-                   "scope_ports_sound, listener_services_sound, vs_select_sound. Four defects found by the proof obligations / review and reproduced on the real code were "
+                   "vs_export_sound, gateway_vs_export_sound, delegate_export_sound, mergeSrcNs_sound; dr_export_sound / scope_dr_export_sound (a rule not exported to the proxy "
+                   "namespace is never selected), dr_policy_provenance / dr_policy_export_sound / clusterPool_owner (no value of a consolidated trafficPolicy comes from a rule outside "
+                   "its `from`); gateway_scope_sound, gateway_filtered_sound; pickBest_order_independent; scope_alias_sound / scope_alias_backed, scope_complete_unique_ports, "
+                   "scope_ports_sound, listener_services_sound, vs_select_sound; servicesByHostname_is_index; rds_names_sound, lds_keys_sound; visibilityFor_spec; "
+                   "validated_none_alone / validated_star_alone. Five defects found by the proof obligations / review and reproduced on the real code were "
                    "repaired in /repo (F7 VirtualService-destination leak, F10 exact-host fast path dropping a service shadowed by a hidden duplicate, F11 aliases of "
-                   "ExternalName services not exported to the proxy namespace, F12 defaultDestinationRuleExportTo namespace lists ignored); the old behaviours are kept "
+                   "ExternalName services not exported to the proxy namespace, F12 defaultDestinationRuleExportTo namespace lists ignored, F13 backend-policy merge writing into the "
+                   "user rule so that its port-level settings reached namespaces the backend rule is not exported to); the old behaviours are kept "
                    "as theorems (scope_sound_fails_unfixed, exact_path_incomplete_witness_unfixed, alias_leak_witness_unfixed, "
-                   "dr_default_namespace_list_witness_unfixed) and as corpus cases; the legacy DestinationRule merge flag is a listed known finding. Also: "
-                   "visibilityFor_spec (serviceEntryVisibility policies), gateway_vs_export_sound for any gateway name, delegate_export_sound. The model is tied to /repo on every run "
-                   "by a line-by-line differential against a real PushContext / SidecarScope / CDS generator, and an independent Go oracle states the property on the real output."),
-    "level_note": ("Trusted: Lean kernel + {propext, Classical.choice, Quot.sound}; the hand-written model (differential testing on ~8500 cases quick / 150000 thorough: "
-                   "host pairs, visibility queries, SidecarScope services / per-listener services and VirtualServices / DestinationRules with subsets, CDS cluster names of sidecar and router proxies, EDS answers); "
+                   "dr_default_namespace_list_witness_unfixed) and as corpus cases; the legacy DestinationRule merge flag is a listed known finding. "
+                   "The model is tied to /repo on every run by a line-by-line differential against a real PushContext / SidecarScope / serviceentry controller / validators / "
+                   "CDS, LDS, RDS and EDS generators (also across incremental pushes), and an independent Go oracle states the property on the real output."),
+    "level_note": ("Trusted: Lean kernel + {propext, Classical.choice, Quot.sound}; the hand-written model (differential testing on ~9300 cases quick / 186000 thorough: "
+                   "host pairs, exportTo validation, visibility queries, ServiceEntry visibility attach point, SidecarScope services / per-listener services and VirtualServices / "
+                   "DestinationRules with subsets and policies / servicesByHostname, CDS cluster names and connection limits of sidecar and router proxies (with and without the gateway "
+                   "cluster filter), EDS answers incl. subset clusters, LDS listener names, RDS virtual host names, incremental pushes); "
                    "pilot/pkg/model/zz_verif_c07.go; the harness environment construction. Not modelled: initServiceRegistry loop structure (closed-form index model), "
-                   "short-name resolution, delegate VirtualService merging, traffic-policy content of consolidated DestinationRules, "
-                   "RDS/LDS generation (only observed by the oracle: route virtual hosts/domains, listener addresses), the FilterGatewayClusterConfig gateway path (oracle only). "
-                   "Delegate VirtualServices are merged for roots delegating with an empty match only. "
+                   "LDS filter chains and RDS route actions / domains (observed by the oracle only), match fields of delegation other than sourceNamespace, "
+                   "EnvoyFilter / extension-provider services of the gateway filter. "
                    "List-level fast-path parity is false (witnesses fastpath_list_parity_fails_witness, fastpath_duplicate_key_witness); legacy DestinationRule merge "
-                   "(flag off) violates export soundness (dr_export_legacy_merge_witness)."),
-    "technique": "Lean 4 theorems over an exact model of visibility / sidecar scoping + differential correspondence with the real PushContext, SidecarScope and CDS + independent property oracle",
+                   "(flag off) violates export soundness (dr_export_legacy_merge_witness, known finding)."),
+    "technique": "Lean 4 theorems over an exact model of visibility / sidecar scoping + differential correspondence with the real PushContext, SidecarScope, validators and xDS generators + independent property oracle",
     "design_ref": "DESIGN.md section 5 C07",
 }
